@@ -69,8 +69,8 @@ ASSUMPTIONS = ["the scalar mode functions are the reference for the sums (their 
                "a coordinate given as a scalar (or as whole numbers) may sit exactly where a mode vanishes: there each term counts with at least "
                "magnitude |c_k| in the rounding scale (the scalar mode routine is the less accurate side at such points)",
                "numpy integer / boolean coordinates of the 1-D Clenshaw sums and integer / boolean modes or complex weights of real modes in "
-               "sum_of_2d_modes are findings with pending repairs (fixes/C10/05, 06); they are drawn only when the module flags "
-               "CLENSHAW_WHOLE_COORDS / TENSOR_WEIGHTS_KEPT are set",
+               "sum_of_2d_modes were genuine defects of the pinned tree (repaired by fix commits 7dc0ef6 and 298d9f8); the module flags "
+               "CLENSHAW_WHOLE_COORDS / TENSOR_WEIGHTS_KEPT that gate those input classes are set",
                "lstsq is only asked to fit when the masked design matrix has condition number < 1e9, three orders of "
                "magnitude inside numpy's default rank cut-off eps * samples (otherwise the case is counted as excluded)"]
 
@@ -187,7 +187,7 @@ SCALAR_REAL = ['pyfloat', 'npscalar', 'np.float32', 'np.longdouble']
 # where a Python int is summed in floating point.  Repair: fixes/C10/06-clenshaw-sums-whole-number-coordinates.patch.  These
 # coordinate types (signed integers and booleans; unsigned ones wrap inside 2 - 4 x) are drawn once that repair is in the repository
 # (set this to True then); the replays of the finding run either way.
-CLENSHAW_WHOLE_COORDS = False
+CLENSHAW_WHOLE_COORDS = True
 WHOLE_DTYPES = ['int64', 'int32', 'int8', 'bool']
 SCALAR_WHOLE_NP = ['np.int64', 'np.int32', 'np.int8', 'np.bool_']
 SCALAR_KINDS = ['pyint', 'pyint', 'pybool', 'pybool'] + SCALAR_REAL + SCALAR_REAL[1:] + (SCALAR_WHOLE_NP if CLENSHAW_WHOLE_COORDS else [])
@@ -366,7 +366,7 @@ def snapshot(x):
 # The unchanged sum_of_2d_modes casts the weights to the dtype of the modes: integer / boolean modes (segment masks, index ramps) truncate
 # them, real modes discard the imaginary part of complex weights.  Repair: fixes/C10/05-sum-of-2d-modes-weights-cast.patch.  The two input
 # classes are drawn once that repair is in the repository (set this to True then); the replays of the finding run either way.
-TENSOR_WEIGHTS_KEPT = False
+TENSOR_WEIGHTS_KEPT = True
 WHOLE_MODES = ['int64', 'int32', 'uint8', 'bool']
 
 
